@@ -317,6 +317,8 @@ pub fn run<K: SimKernel<D>, const D: usize>(
     } else {
         n0
     };
+    // the pinwheel family wants exactly its structured prefix (outer + twisted inner simplex) most of the time
+    let n0 = if header.family == "pinwheel" && Rng::sub(rs, "pinwheel-n0", 0).chance(2, 3) { (2 * (D + 1)).min(maxv.max(2 * (D + 1))) } else { n0 };
     if n0 == 0 {
         prologue.push(Op::Empty { obj: 0, tg: tg.to_string() });
     } else {
